@@ -41,6 +41,9 @@ type c16Obs struct {
 	FinalDefault *c04Out
 	Crashed      bool
 	CrashOut     string // output of the run that crashed (replay aid)
+	// criterion "one pass fixes all instances of a kind": actions of a pass N+1 whose exact text
+	// pass N had logged in the same file, and how many of them fell under the alignment exception
+	RepeatedActions, RepeatedAlignment int
 }
 
 func c16Crashed(r RunResult) bool {
@@ -113,6 +116,18 @@ func c16Evaluate(ctx *Ctx, dir string, tf c04Files, targets []string) ([]c04Find
 		if p >= 2 {
 			for _, f := range c16RepeatedFixes(cfg, inputs[p-2], inputs[p-1], obs.Passes[p-2], pass, p) {
 				fs = append(fs, f)
+			}
+			had := map[string]bool{}
+			for _, d := range obs.Passes[p-2].Fixes {
+				had[filepath.Clean(d.Path)+"\x00"+d.Msg] = true
+			}
+			for _, d := range pass.Fixes {
+				if had[filepath.Clean(d.Path)+"\x00"+d.Msg] {
+					obs.RepeatedActions++
+					if c16AlignmentAction(d.Msg) {
+						obs.RepeatedAlignment++
+					}
+				}
 			}
 		}
 		for k := range after {
@@ -386,6 +401,8 @@ func c16WholeRun(ctx *Ctx, res *Result, rng *Rng, ntrees int) {
 				res.Count(fmt.Sprintf("whole.pass%d-action %s", p+1, k), 1)
 			}
 		}
+		res.Count("whole.actions repeated verbatim by the next pass in the same file", obs.RepeatedActions)
+		res.Count("whole.actions repeated verbatim … of these: white-space only (alignment, exempt)", obs.RepeatedAlignment)
 		for k, n := range g.Features {
 			if strings.HasPrefix(k, "c16.") {
 				res.Count("gen."+k, n)
@@ -589,6 +606,14 @@ func c16Floors(res *Result, ntrees int) {
 		if n, _ := res.Distribution["whole.target-with-fix "+k].(int); n < 3 && res.Broken == "" {
 			res.Broken = fmt.Sprintf("command-line target kind %q fired a fix only %d times", k, n)
 		}
+	}
+	// the shapes the round-4 criteria need (generator features: independent of the implementation)
+	manyGz, idAssign, foreign := 0, get("gen.c16.common-first-id+assignments"), get("gen.c16.common-foreign-users-1")+get("gen.c16.common-foreign-users-2")
+	for n := 2; n <= 12; n++ {
+		manyGz += get(fmt.Sprintf("gen.c16.plist-man-%d", n))
+	}
+	if res.Broken == "" && (manyGz < ntrees/4 || idAssign < ntrees/16 || foreign < ntrees/8) {
+		res.Broken = fmt.Sprintf("generator: %d PLISTs with two or more compressed manual pages, %d Makefile.common with code in the first paragraph, %d included from another directory (of %d trees)", manyGz, idAssign, foreign, ntrees)
 	}
 	var kinds []string
 	for d := range res.Distribution {
